@@ -112,8 +112,10 @@ pub fn ipiv_parity(ipiv: &[i32]) -> i32 {
     let mut perm = ipiv.to_owned();
     let mut par = 0;
     for i in 0..perm.len() {
-        if perm[i] != i as i32 {
+        // keep swapping until position i holds i: a cycle of length k needs k - 1 swaps
+        while perm[i] != i as i32 {
             let j = perm[i] as usize;
+            assert!(perm[j] != perm[i], "ipiv is not a permutation");
             perm.swap(i, j);
             par += 1;
         }
